@@ -233,6 +233,22 @@ fn step_update_status(mask: u8, rev: bool) {
         if was == now {
             assert!(l.current_job() == cur0 && l.previous_job() == prev0, "C12 no reselection");
         }
+        if was && !now && prev0 == Some(slot) {
+            // the previous job left the suspended state: it is replaced only by ANOTHER SUSPENDED job
+            // (other than the current one); otherwise it stays the previous job
+            let mut other_susp = false;
+            let mut k = 0;
+            while k < N {
+                other_susp |= k != slot && Some(k) != cur0 && before[k].present && is_susp(&before[k].state);
+                k += 1;
+            }
+            match l.previous_job() {
+                Some(p) if p != slot => assert!(other_susp && is_susp(&before[p].state), "C12 previous job is only replaced by a suspended job"),
+                Some(_) => assert!(!other_susp, "C12 a suspended job takes over as previous job"),
+                None => panic!("C12 previous job lost"),
+            }
+            assert!(l.current_job() == cur0, "C12 current job unchanged when the previous job resumes");
+        }
         kani::cover!(!was && now && cur0 != Some(slot) && cur0.is_some(), "suspend a non-current job");
         kani::cover!(was && !now && cur0 == Some(slot) && prev0.is_some(), "resume the current job");
     }
